@@ -273,26 +273,19 @@ Proof.
   - (* text *)
     change (strs ot_unicode) with [TString (hd [] ot_unicode)]. cbn [app run]. rewrite (step_open _ _ Hi).
     erewrite step_index; [|reflexivity|intros top; apply (open_kind_leaf top)].
-    cbn [kind_registers]. unfold step at 1. cbn [s_inopen s_stack recv newframe f_kind f_items].
-    unfold step at 1. cbn [s_inopen s_stack push_item f_open f_kind f_count f_items f_refs]. rewrite Z.eqb_refl.
-    cbn [frame_hazard f_kind seal rev app f_items]. rewrite (recv_top _ _ Ht). cbn [s_counter s_heap]. rewrite Hc. reflexivity.
+    cbn. rewrite Z.eqb_refl. cbn. rewrite (recv_top _ _ Ht). rewrite Hc. reflexivity.
   - (* bool *)
     change (strs ot_boolean) with [TString (hd [] ot_boolean)]. cbn [app run]. rewrite (step_open _ _ Hi).
     erewrite step_index; [|reflexivity|intros top; apply (open_kind_leaf top)].
-    cbn [kind_registers]. unfold step at 1. cbn [s_inopen s_stack recv newframe f_kind f_items].
-    unfold step at 1. cbn [s_inopen s_stack push_item f_open f_kind f_count f_items f_refs]. rewrite Z.eqb_refl.
-    cbn [frame_hazard f_kind seal rev app f_items]. rewrite (recv_top _ _ Ht). cbn [s_counter s_heap]. rewrite Hc. reflexivity.
+    cbn. rewrite Z.eqb_refl. cbn. rewrite (recv_top _ _ Ht). rewrite Hc. reflexivity.
   - (* none *)
     change (strs ot_none) with [TString (hd [] ot_none)]. cbn [app run]. rewrite (step_open _ _ Hi).
     erewrite step_index; [|reflexivity|intros top; apply (open_kind_leaf top)].
-    cbn [kind_registers]. unfold step at 1. cbn [s_inopen s_stack newframe f_open f_kind f_count f_items f_refs]. rewrite Z.eqb_refl.
-    cbn [frame_hazard f_kind seal rev app f_items]. rewrite (recv_top _ _ Ht). cbn [s_counter s_heap]. rewrite Hc. reflexivity.
+    cbn. rewrite Z.eqb_refl. cbn. rewrite (recv_top _ _ Ht). rewrite Hc. reflexivity.
   - (* decimal *)
     change (strs ot_decimal) with [TString (hd [] ot_decimal)]. cbn [app run]. rewrite (step_open _ _ Hi).
     erewrite step_index; [|reflexivity|intros top; apply (open_kind_leaf top)].
-    cbn [kind_registers]. unfold step at 1. cbn [s_inopen s_stack recv newframe f_kind f_items].
-    unfold step at 1. cbn [s_inopen s_stack push_item f_open f_kind f_count f_items f_refs]. rewrite Z.eqb_refl.
-    cbn [frame_hazard f_kind seal rev app f_items]. rewrite (recv_top _ _ Ht). cbn [s_counter s_heap]. rewrite Hc. reflexivity.
+    cbn. rewrite Z.eqb_refl. cbn. rewrite (recv_top _ _ Ht). rewrite Hc. reflexivity.
 Qed.
 
 Lemma run_ref k n st : s_inopen st = None -> s_counter st = n -> top_ok (s_stack st) = true -> lookup k (s_stack st) = true ->
@@ -301,10 +294,5 @@ Proof.
   intros Hi Hc Ht Hl. rewrite adv_one. cbn [slice].
   change (strs ot_reference) with [TString (hd [] ot_reference)]. cbn [app run]. rewrite (step_open _ _ Hi).
   erewrite step_index; [|reflexivity|intros top; apply (open_kind_leaf top)].
-  cbn [kind_registers]. unfold step at 1. cbn [s_inopen s_stack recv newframe f_kind f_items].
-  assert (L : lookup k ({| f_kind := KRef; f_open := n; f_count := s_counter st; f_items := []; f_refs := [] |} :: s_stack st) = true).
-  { unfold lookup in *. cbn [existsb is_scope_frame f_kind andb orb]. exact Hl. }
-  rewrite L.
-  unfold step at 1. cbn [s_inopen s_stack push_item f_open f_kind f_count f_items f_refs]. rewrite Z.eqb_refl.
-  cbn [frame_hazard f_kind seal rev app f_items]. rewrite (recv_top _ _ Ht). cbn [s_counter s_heap]. rewrite Hc. reflexivity.
+  cbn. unfold lookup in Hl. rewrite Hl. cbn. rewrite Z.eqb_refl. cbn. rewrite (recv_top _ _ Ht). rewrite Hc. reflexivity.
 Qed.
